@@ -41,6 +41,9 @@ func extra(args []string) bool {
 	case "fn-storage":
 		fnStorage(argU(args, 1, 1), int(argU(args, 2, 500)))
 		return true
+	case "fn-codec":
+		fnCodec(argU(args, 1, 1), int(argU(args, 2, 500)))
+		return true
 	}
 	return false
 }
@@ -181,14 +184,16 @@ func fnStorage(seed uint64, n int) {
 		}
 		ans := J{"read": readAnswer(path)}
 		// now append a batch with the real writer
-		batch := genEvents(r)
-		if len(batch) > 3 {
-			batch = batch[:3]
+		// the batch: events as the commands build them (newEvent over the payload structs), so that the model can produce
+		// the same bytes from the event's meaning alone
+		var batch []ergo.Event
+		for k := r.n(4); k > 0; k-- {
+			batch = append(batch, genRealEvent(r))
 		}
 		enc := []J{}
 		for _, e := range batch {
 			b, _ := json.Marshal(e)
-			enc = append(enc, J{"hex": hex.EncodeToString(b), "event": ergo.VerifCanonEvent(e)})
+			enc = append(enc, J{"hex": hex.EncodeToString(b), "event": ergo.VerifCanonEvent(e), "ets": e.TS})
 			classes[hex.EncodeToString(b)] = ergo.VerifClassifyLine(b)
 		}
 		if err := ergo.VerifAppendEvents(path, batch); err != nil {
@@ -196,6 +201,7 @@ func fnStorage(seed uint64, n int) {
 		}
 		after, _ := os.ReadFile(path)
 		ans["after"] = hex.EncodeToString(after)
+		ans["class_mismatch"] = []string{}
 		ans["read_after"] = readAnswer(path)
 		req := J{"op": "storage", "tag": i, "file": hex.EncodeToString(file), "classes": classes, "limit": 10 * 1024 * 1024, "append": enc}
 		emit(J{"req": req, "go": ans})
